@@ -186,6 +186,7 @@ func resetCaches() {
 	factoryCache = nil
 	lockedHelperCache = map[*ssaFunc][]int{}
 	fieldOwnerCache = map[string]bool{}
+	globalFieldCache = map[string]ssa.Value{}
 	quoAtoms = map[string]quoDef{}
 	inlineCache = map[inlineKey]inlineRes{}
 	reachEffCache = map[string]map[*ssaFunc]bool{}
